@@ -6,7 +6,7 @@ V=$(cd "$(dirname "$0")/.." && pwd)
 MUTS="$@"; [ -z "$MUTS" ] && MUTS=$(cd $V/seeded && ls -d C*)
 CHECKS="C01 C02 C03 C04 C05 C06 C07 C08 C09 C10 C11 C12 C13 C14 C15 C16 C17 C18"
 for m in $MUTS; do
-  D=/tmp/mt/$m; rm -rf $D; mkdir -p /tmp/mt
+  MT=${MT_DIR:-/tmp/mt}; D=$MT/$m; rm -rf $D; mkdir -p $MT
   git -C /repo worktree add -q --detach $D HEAD || continue
   if ! git -C $D apply $V/seeded/$m/patch.diff; then echo "$m ALL patch-does-not-apply" >> $OUT; git -C /repo worktree remove --force $D; continue; fi
   for c in ${ONLY:-$CHECKS}; do
@@ -15,6 +15,6 @@ for m in $MUTS; do
     else echo "$m $c missed rc=$rc" >> $OUT; fi
   done
   git -C /repo worktree remove --force $D
-  rm -f $V/.work/bin/*_tmp_mt_$m $V/.work/go._tmp_mt_$m.*
+  rm -f $V/.work/bin/*_$(echo $D | tr / _) $V/.work/go.$(echo $D | tr / _).*
 done
 echo DONE >> $OUT
